@@ -15,76 +15,151 @@ import (
 
 func init() { Registry["C05"] = checkC05 }
 
-// atomOf classifies a branch condition inside a policy predicate as an atom:
-// "flag:<field>" for a load of a bool config field, "in:<field>" for
-// SliceContains(load(<field>), lowered-domain). neg is the polarity of the condition.
-func atomOf(v ssa.Value, lowered func(ssa.Value) bool) (string, bool, string) {
-	neg := false
-	for {
-		if u, ok := v.(*ssa.UnOp); ok && u.Op == token.NOT {
-			neg = !neg
-			v = u.X
-			continue
-		}
-		break
-	}
-	if f := eng.LoadedField(v); f != nil {
-		if b, ok := f.Type().Underlying().(*types.Basic); ok && b.Kind() == types.Bool {
-			return "flag:" + f.Name(), neg, ""
-		}
-	}
-	if call, ok := v.(*ssa.Call); ok {
-		g := eng.StaticCallee(call.Common())
-		if g != nil && g.Name() == "SliceContains" && len(call.Call.Args) == 2 {
-			f := eng.LoadedField(call.Call.Args[0])
-			if f == nil {
-				return "", false, "SliceContains over a value that is not a config field"
-			}
-			if !lowered(call.Call.Args[1]) {
-				return "", false, "SliceContains(" + f.Name() + ", x): x is not the lower-cased domain"
-			}
-			return "in:" + f.Name(), neg, ""
-		}
-	}
-	return "", false, "unrecognised branch condition " + v.String()
+// ---- a tiny symbolic evaluator for the policy predicates -------------------------------
+//
+// The predicates are loop-free boolean functions of three atoms. They are executed under a
+// truth assignment; calls of module helpers are followed with their parameters bound to
+// what the caller passed, so the table does not depend on how the code is split up.
+
+type pdesc struct {
+	kind string // "flag" | "list" | "raw" | "lowered" | "const"
+	name string // config field name for flag/list
+	b    bool
 }
 
-// evalPredicate executes the loop-free predicate fn under a truth assignment of its atoms.
-func evalPredicate(fn *ssa.Function, assign map[string]bool, lowered func(ssa.Value) bool) (bool, string) {
-	b := fn.Blocks[0]
-	for steps := 0; steps < 200; steps++ {
-		last := b.Instrs[len(b.Instrs)-1]
-		switch x := last.(type) {
-		case *ssa.Return:
-			v, ok := eng.ConstBool(x.Results[0])
-			if !ok {
-				return false, "non-constant return"
-			}
-			return v, ""
-		case *ssa.Jump:
-			b = b.Succs[0]
-		case *ssa.If:
-			atom, neg, why := atomOf(x.Cond, lowered)
-			if why != "" {
-				return false, why
-			}
-			val, ok := assign[atom]
-			if !ok {
-				return false, "atom " + atom + " not in the expected table"
-			}
-			if neg {
-				val = !val
-			}
-			if val {
-				b = b.Succs[0]
-			} else {
-				b = b.Succs[1]
-			}
-		default:
-			return false, "unexpected terminator"
+type penv map[*ssa.Parameter]pdesc
+
+type peval struct {
+	assign map[string]bool // "flag:X" / "in:X"
+	raw    *ssa.Parameter  // the predicate's domain parameter
+	err    string
+	steps  int
+}
+
+func (e *peval) desc(v ssa.Value, env penv) pdesc {
+	v = eng.StripConv(v)
+	if b, ok := eng.ConstBool(v); ok {
+		return pdesc{kind: "const", b: b}
+	}
+	if prm, ok := v.(*ssa.Parameter); ok {
+		if d, ok := env[prm]; ok {
+			return d
+		}
+		if prm == e.raw {
+			return pdesc{kind: "raw"}
 		}
 	}
-	return false, "evaluation did not terminate (loop)"
+	if f := eng.LoadedField(v); f != nil && f.Pkg() != nil && f.Pkg().Path() == eng.Mod+"/pkg/config" {
+		if bt, ok := f.Type().Underlying().(*types.Basic); ok && bt.Kind() == types.Bool {
+			return pdesc{kind: "flag", name: f.Name()}
+		}
+		if _, ok := f.Type().Underlying().(*types.Slice); ok {
+			return pdesc{kind: "list", name: f.Name()}
+		}
+	}
+	if call, ok := v.(*ssa.Call); ok && eng.CalleeName(call.Common()) == "strings.ToLower" {
+		if d := e.desc(call.Call.Args[0], env); d.kind == "raw" || d.kind == "lowered" {
+			return pdesc{kind: "lowered"}
+		}
+	}
+	return pdesc{kind: "?"}
+}
+
+// boolOf evaluates a boolean SSA value; prev is the block control came from (for phis).
+func (e *peval) boolOf(v ssa.Value, env penv, prev *ssa.BasicBlock) bool {
+	if e.err != "" {
+		return false
+	}
+	switch x := v.(type) {
+	case *ssa.UnOp:
+		if x.Op == token.NOT {
+			return !e.boolOf(x.X, env, prev)
+		}
+	case *ssa.Phi:
+		for i, p := range x.Block().Preds {
+			if p == prev {
+				return e.boolOf(x.Edges[i], env, prev)
+			}
+		}
+		e.err = "phi without a matching predecessor"
+		return false
+	case *ssa.Call:
+		g := eng.StaticCallee(x.Common())
+		if g != nil && g.Name() == "SliceContains" && len(x.Call.Args) == 2 {
+			l := e.desc(x.Call.Args[0], env)
+			d := e.desc(x.Call.Args[1], env)
+			if l.kind != "list" {
+				e.err = "membership test over something that is not a configured domain list"
+				return false
+			}
+			if d.kind != "lowered" {
+				e.err = "membership test in " + l.name + " does not use the lower-cased domain: mixed-case addresses escape the (lower-cased) list"
+				return false
+			}
+			val, ok := e.assign["in:"+l.name]
+			if !ok {
+				e.err = "list " + l.name + " is not part of the documented rule for this predicate"
+				return false
+			}
+			return val
+		}
+		if g != nil && eng.InModule(g) && len(g.Blocks) > 0 && g.Signature.Results().Len() == 1 {
+			nenv := penv{}
+			for i, prm := range g.Params {
+				if i < len(x.Call.Args) {
+					nenv[prm] = e.desc(x.Call.Args[i], env)
+				}
+			}
+			return e.run(g, nenv)
+		}
+	}
+	d := e.desc(v, env)
+	switch d.kind {
+	case "const":
+		return d.b
+	case "flag":
+		val, ok := e.assign["flag:"+d.name]
+		if !ok {
+			e.err = "flag " + d.name + " is not part of the documented rule for this predicate"
+		}
+		return val
+	}
+	e.err = "unrecognised boolean expression " + v.String()
+	return false
+}
+
+func (e *peval) run(fn *ssa.Function, env penv) bool {
+	b := fn.Blocks[0]
+	var prev *ssa.BasicBlock
+	for e.err == "" {
+		e.steps++
+		if e.steps > 500 {
+			e.err = "evaluation did not terminate (loop)"
+			return false
+		}
+		switch x := b.Instrs[len(b.Instrs)-1].(type) {
+		case *ssa.Return:
+			return e.boolOf(eng.ReturnResults(x)[0], env, prev)
+		case *ssa.Jump:
+			prev, b = b, b.Succs[0]
+		case *ssa.If:
+			if e.boolOf(x.Cond, env, prev) {
+				prev, b = b, b.Succs[0]
+			} else {
+				prev, b = b, b.Succs[1]
+			}
+		default:
+			e.err = "unexpected terminator"
+		}
+	}
+	return false
+}
+
+// evalPredicate executes the predicate fn under a truth assignment of its atoms.
+func evalPredicate(fn *ssa.Function, assign map[string]bool) (bool, string) {
+	e := &peval{assign: assign, raw: fn.Params[len(fn.Params)-1]}
+	v := e.run(fn, penv{})
+	return v, e.err
 }
 
 func checkC05(c *Ctx) {
@@ -144,7 +219,7 @@ func checkC05(c *Ctx) {
 	for _, n := range names {
 		r.Check(lowered[n], "C05/LOWER/config", "config.SMTP."+n, p.Pos(read[n]), "read by pkg/policy and lower-cased in config.Process", "config.SMTP."+n+" is compared with lower-cased domains in pkg/policy but config.Process does not lower-case it: a mixed-case entry from the environment never matches")
 	}
-	r.Floor("C05/LOWER/config", "string-list config fields read by pkg/policy", len(names), 5)
+	r.Floor("C05/LOWER/config", "string-list config fields read by pkg/policy", len(names), 1)
 
 	// ---- D2 / D3
 	addr := p.Named("pkg/policy", "Addressing")
@@ -163,14 +238,11 @@ func checkC05(c *Ctx) {
 			r.Fatal("UNRESOLVED anchor=policy.Addressing.%s", tb.method)
 			continue
 		}
-		dom := fn.Params[len(fn.Params)-1]
-		low := c.c05ArgLower(fn, dom)
-		isLowered := func(v ssa.Value) bool { return low != nil && v == ssa.Value(low) }
 		var probs []string
 		n := 0
 		for mask := 0; mask < 8; mask++ {
 			assign := map[string]bool{"flag:" + tb.flag: mask&1 != 0, "in:" + tb.negList: mask&2 != 0, "in:" + tb.posList: mask&4 != 0}
-			got, why := evalPredicate(fn, assign, isLowered)
+			got, why := evalPredicate(fn, assign)
 			if why != "" {
 				probs = append(probs, why)
 				break
@@ -189,6 +261,13 @@ func checkC05(c *Ctx) {
 				if !strings.Contains(pr, "→") {
 					undec = true
 				}
+				if strings.Contains(pr, "does not use the lower-cased domain") {
+					r.Bad("C05/LOWER/arg", cons, p.Pos(fn.Pos()), "%s", pr)
+					undec = false
+				}
+			}
+			if len(probs) == 1 && strings.Contains(probs[0], "does not use the lower-cased domain") {
+				continue
 			}
 			if undec {
 				r.Undecided("C05/TABLE/predicates", cons, p.Pos(fn.Pos()), "predicate is not reducible to the three atoms: %s", strings.Join(probs, "; "))
@@ -197,6 +276,7 @@ func checkC05(c *Ctx) {
 			}
 		} else {
 			r.Ok("C05/TABLE/predicates", cons, p.Pos(fn.Pos()), "all %d truth assignments agree with %s∧¬in(%s) ∨ ¬%s∧in(%s)", n, tb.flag, tb.negList, tb.flag, tb.posList)
+			r.Ok("C05/LOWER/arg", cons, p.Pos(fn.Pos()), "every membership test uses the lower-cased domain")
 		}
 	}
 	// origin predicate
